@@ -1,188 +1,631 @@
 """C17 — thresholding and weight conversion keep exactly the documented entries."""
+import math
+import warnings
 from fractions import Fraction as F
 import numpy as np
 from common import *
 
 ID = 'C17'
-COQ_FILES = ['Base/Mat.v', 'Base/ListX.v', 'Model/Threshold.v', 'Proofs/Threshold.v', 'Properties/C17.v']
-THEOREMS = ['C17_tp_count', 'C17_tp_strongest', 'C17_tp_values', 'C17_tp_diag', 'C17_tp_sym', 'C17_tp_instance',
-            'C17_tp_rejects', 'C17_ta_exact', 'C17_binarize', 'C17_normalize', 'C17_invert_spec',
-            'C17_invert_involutive', 'C17_copy_flag', 'C17_teachers_round']
-RULE = ('random + structured matrices n=1..7 with small integer / dyadic weights (many exact ties), symmetric and not, '
-        'sparse and dense, nonzero diagonals; p dyadic so that (n^2-n)p/ud is exact in binary64, including .5 cases; '
-        'non-trivial = at least one off-diagonal nonzero; distinct by hash of (function, matrix, parameter)')
-ASSUMES = ['weights and p are dyadic rationals: every float operation the model treats as exact is exact',
-           'argsort tie order is unspecified: kept sets are compared as value multisets when the cut falls inside a tie']
+COQ_FILES = ['Base/Mat.v', 'Base/ListX.v', 'Model/Threshold.v', 'Proofs/Threshold.v', 'Proofs/ThresholdFull.v',
+             'Model/ThresholdStore.v', 'Proofs/ThresholdStore.v', 'Properties/C17.v']
+THEOREMS = ['C17_tp_count', 'C17_tp_support', 'C17_tp_kept_iff', 'C17_tp_strongest', 'C17_tp_links', 'C17_tp_values',
+            'C17_tp_diag', 'C17_tp_sym', 'C17_tp_instance', 'C17_tp_rejects', 'C17_ta_exact', 'C17_binarize',
+            'C17_normalize', 'C17_normalize_domain', 'C17_invert_spec', 'C17_invert_involutive',
+            'C17_copy_contract_meaning', 'C17_copy_threshold_absolute', 'C17_copy_threshold_proportional',
+            'C17_copy_binarize', 'C17_copy_normalize', 'C17_copy_invert', 'C17_wc_dispatch',
+            'C17_copy_weight_conversion', 'C17_rebind_not_inplace',
+            'C17_teachers_round', 'C17_teachers_round_neg', 'C17_teachers_round_zero', 'C17_teachers_round_odd']
+RULE = ('per round one threshold_proportional case, one threshold_absolute case, binarize/normalize/invert (each also through '
+        'weight_conversion, plus unknown command strings) and one teachers_round case. Matrix families: small (n=1..7, integer / '
+        'dyadic weights, many exact ties, symmetric and not, sparse and dense, zero / nonzero diagonals), n=0, large sparse '
+        '(n=8..30), non-dyadic float weights (0.1, 0.3, 1/3, ...; the oracle and the model receive the EXACT rational value of '
+        'each float), nearly symmetric (a symmetric matrix with relative noise 1e-9 / absolute 1e-10 that np.allclose accepts, '
+        'or 1e-3 / 0.01 that it does not), all-zero, int64 and bool dtype, non-contiguous views (strided slice / transpose of a '
+        'larger array) for copy=False. p: 0, 1, k/16, k/32, k/8, out-of-range values, non-dyadic (0.07, 0.35, ...), and p chosen '
+        'so that p*possible/ud falls on or within 2^-40 / 1e-10 / one ulp of k+.5; passed as float, np.float64 or int. '
+        'thr: k/2, non-dyadic, and exactly equal to a weight. non-trivial = at least one off-diagonal nonzero; '
+        'distinct by hash of (function, matrix, parameter, dtype)')
+ASSUMES = ['every generated float enters the oracle and the model as its exact rational value; the only float arithmetic the code does '
+           'before a decision is (n*n-n)*p/ud: that product is recomputed in binary64 by the harness and handed to the model as the '
+           'rational p_eff with (n*n-n)*p_eff/ud equal to it exactly (for dyadic p it is p); cases where the binary64 value rounds '
+           'differently from the exact product are counted under tp:float_en_differs_from_exact (none for dyadic p)',
+           'np.allclose(W, W.T) is modelled with exact atol=1e-8, rtol=1e-5; generated noise keeps |a-b| away from atol+rtol|b| '
+           '(knife-edge cases would be skipped and counted)',
+           'argsort tie order is unspecified: kept sets are compared as value multisets when the cut falls inside a tie',
+           '1/w and w/max are compared with relative tolerance 1e-15 * 8 on the implementation and 1e-12 against the model',
+           'NaN / inf entries are not real weights and are not generated; normalize of an all-zero matrix (0/0) must give NaN '
+           'everywhere and of a 0x0 matrix must raise ValueError (what the code does; the clause "largest magnitude becomes 1" '
+           'has no content there, theorem C17_normalize_domain); logtransform and autofix are not named by the property '
+           '(their last statements rebind W, so copy=False does not leave the result in the argument: C17_rebind_not_inplace; '
+           'observed once per run under distribution key rebind:*)']
+TRUSTED = ['the store model (Model/ThresholdStore.v) reads `W = W.copy()` as allocate+rebind and every other statement of the six '
+           'utilities as a write into the object bound to W; that classification was made by reading bct/utils/other.py and is '
+           'checked dynamically (`is`, argument before/after, cells of the enclosing array outside a view)']
+
+ATOL, RTOL = F(1, 10 ** 8), F(1, 10 ** 5)
 
 
 def tround(x):
-    import math
-    return int(math.floor(x + F(1, 2))) if x > 0 else -int(math.floor(-x + F(1, 2))) if (-x) % 1 != F(1, 2) else int(math.floor(x))
+    """round half away from zero on exact rationals (theorems C17_teachers_round, _neg, _zero)"""
+    if x > 0:
+        return int(math.floor(x + F(1, 2)))
+    if x < 0:
+        return -int(math.floor(-x + F(1, 2)))
+    return 0
 
 
-def gen_matrix(ctx, signed):
-    r = ctx.nprng
-    n = int(r.randint(1, 8))
-    vals = [1, 2, 3, 4, F(1, 2), F(3, 4), F(5, 2)]
-    k = int(r.randint(1, len(vals) + 1))
-    dens = float(r.choice([0.2, 0.5, 0.8, 1.0]))
+def enc_qb(x):
+    x = F(x)
+    def z(v):
+        return '0' if v == 0 else ('-' if v < 0 else '') + '0b' + bin(abs(v))[2:]
+    return z(x.numerator) if x.denominator == 1 else z(x.numerator) + '/' + z(x.denominator)
+
+
+def enc_codes(s):
+    return enc_list([ord(c) for c in s])
+
+
+# ---------------------------------------------------------------- generators
+DY = [F(1), F(2), F(3), F(4), F(1, 2), F(3, 4), F(5, 2)]
+ND = [F(x) for x in (0.1, 0.3, 1 / 3, 0.7, 2.2, 0.1 + 0.2, 1e-3, 5.5)]
+
+
+def fill(r, n, vals, dens, sym, signed):
     W = [[F(0)] * n for _ in range(n)]
-    sym = r.rand() < 0.5
     for i in range(n):
         for j in range(n):
             if sym and j < i:
                 W[i][j] = W[j][i]
                 continue
             if r.rand() < dens:
-                v = F(vals[int(r.randint(0, k))])
+                v = vals[int(r.randint(0, len(vals)))]
                 if signed and r.rand() < 0.3:
                     v = -v
                 W[i][j] = v
     if r.rand() < 0.3:
         for i in range(n):
             W[i][i] = F(0)
-    return W, sym
+    return W
 
 
-def npm(W):
-    return np.array([[float(x) for x in row] for row in W], dtype=float).reshape(len(W), len(W))
+def gen_matrix(ctx, signed):
+    """returns (W as Fractions, family, dtype)"""
+    r = ctx.nprng
+    u = r.rand()
+    dtype = 'float'
+    if u < 0.50:
+        fam = 'small'
+        n = int(r.randint(1, 8))
+        k = int(r.randint(1, len(DY) + 1))
+        W = fill(r, n, DY[:k], float(r.choice([0.2, 0.5, 0.8, 1.0])), r.rand() < 0.5, signed)
+    elif u < 0.52:
+        fam, W = 'n0', []
+    elif u < 0.58:
+        fam = 'large_sparse'
+        n = int(r.randint(8, 31))
+        W = fill(r, n, DY[:int(r.randint(1, 8))], float(r.choice([0.03, 0.08, 0.15, 0.3])), r.rand() < 0.5, signed)
+    elif u < 0.68:
+        fam = 'nondyadic'
+        n = int(r.randint(1, 8))
+        W = fill(r, n, ND[:int(r.randint(1, len(ND) + 1))], float(r.choice([0.3, 0.6, 1.0])), r.rand() < 0.5, signed)
+    elif u < 0.80:
+        n = int(r.randint(2, 8))
+        W = fill(r, n, (DY + ND)[:int(r.randint(1, 12))], float(r.choice([0.4, 0.8, 1.0])), True, signed)
+        tiny = r.rand() < 0.6
+        fam = 'nearsym_tiny' if tiny else 'nearsym_big'
+        for _ in range(int(r.randint(1, 4))):
+            i, j = sorted(int(x) for x in r.choice(n, 2, replace=False))
+            a, b = (i, j) if r.rand() < 0.5 else (j, i)        # which triangle carries the perturbed value
+            w = float(W[i][j])
+            if w != 0:
+                e = float(r.choice([1e-9, -1e-9, 3e-9])) if tiny else float(r.choice([1e-3, -2e-3]))
+                W[a][b] = F(w * (1 + e))
+            else:
+                W[a][b] = F(1e-10) if tiny else F(0.01)
+    elif u < 0.84:
+        fam = 'allzero'
+        n = int(r.randint(1, 6))
+        W = [[F(0)] * n for _ in range(n)]
+    else:
+        dtype = 'int' if r.rand() < 0.6 else 'bool'
+        fam = dtype
+        n = int(r.randint(1, 8))
+        W = fill(r, n, [F(1), F(2), F(3), F(4)][:int(r.randint(1, 5))], float(r.choice([0.2, 0.5, 0.8, 1.0])), r.rand() < 0.5,
+                 signed and dtype == 'int')
+        if dtype == 'bool':
+            W = [[F(int(x != 0)) for x in row] for row in W]
+    return W, fam, dtype
+
+
+def npm(W, dtype='float'):
+    n = len(W)
+    t = {'float': float, 'int': np.int64, 'bool': bool}[dtype]
+    conv = {'float': float, 'int': int, 'bool': lambda x: x != 0}[dtype]
+    return np.array([[conv(x) for x in row] for row in W], dtype=t).reshape(n, n)
+
+
+def as_view(r, A):
+    """the same matrix as a non-contiguous view into a larger array; returns (view, base, mask of the cells the view covers)"""
+    n = len(A)
+    kind = int(r.randint(0, 3))
+    if kind == 0:        # every second row/column of a 2n x 2n array
+        B = np.full((2 * n, 2 * n), 9, dtype=A.dtype)
+        B[::2, ::2] = A
+        V = B[::2, ::2]
+        M = np.zeros(B.shape, bool); M[::2, ::2] = True
+    elif kind == 1:      # transpose of a C-ordered array (Fortran-ordered view)
+        B = A.T.copy()
+        V = B.T
+        M = np.ones(B.shape, bool)
+    else:                # a corner block of a larger array
+        B = np.full((n + 2, n + 3), 9, dtype=A.dtype)
+        B[1:n + 1, 2:n + 2] = A
+        V = B[1:n + 1, 2:n + 2]
+        M = np.zeros(B.shape, bool); M[1:n + 1, 2:n + 2] = True
+    return V, B, M
+
+
+def fr(x):
+    """exact rational value of a NumPy scalar"""
+    return F(float(x)) if not isinstance(x, (bool, np.bool_)) else F(int(x))
+
+
+def frmat(R):
+    return [[fr(x) for x in row] for row in np.asarray(R)]
+
+
+def allclose_frac(Wd):
+    """np.allclose(W, W.T) on exact values; second component: True if some pair sits on the knife edge"""
+    n = len(Wd)
+    ok, edge = True, False
+    for i in range(n):
+        for j in range(n):
+            a, b = Wd[i][j], Wd[j][i]
+            lhs, rhs = abs(a - b), ATOL + RTOL * abs(b)
+            if lhs != 0 and abs(lhs - rhs) < rhs / 1000:
+                edge = True
+            if lhs > rhs:
+                ok = False
+    return ok, edge
+
+
+def close_to(x, want, tol):
+    """NumPy scalar x against an exact rational"""
+    x = float(x)
+    if not math.isfinite(x):
+        return False
+    return abs(F(x) - want) <= tol * max(abs(want), F(1, 10 ** 300))
+
+
+def strs(W):
+    return [[str(x) for x in row] for row in W]
+
+
+# ---------------------------------------------------------------- threshold_proportional
+def gen_p(ctx, n, ud):
+    r = ctx.nprng
+    poss = n * n - n
+    ch = int(r.randint(0, 9))
+    if ch == 0:
+        return 0.0, 'p0'
+    if ch == 1:
+        return 1.0, 'p1'
+    if ch == 2:
+        return int(r.randint(0, 33)) / 32, 'dyadic'
+    if ch == 3:
+        return int(r.randint(0, 9)) / 8, 'dyadic'
+    if ch == 4:
+        return int(r.randint(-2, 20)) / 16, 'dyadic_or_outside'       # includes out-of-range values (rejection clause)
+    if ch == 5:
+        return float(r.choice([0.07, 0.35, 0.1, 0.3, 0.55, 0.9, 1 / 3, 0.15, 0.45, 0.65])), 'nondyadic'
+    if ch == 6:
+        return float(r.choice([-1e-9, 1 + 1e-9, -0.0, float(np.nextafter(1.0, 2.0)), float(np.nextafter(1.0, 0.0)), 5e-324, 1e-9])), 'boundary'
+    if poss == 0:
+        return float(r.rand()), 'nondyadic'
+    # p x count (/ud) on or next to k + .5
+    k = int(r.randint(0, max(1, poss // ud)))
+    d = float(r.choice([0.0, 0.0, 2.0 ** -40, -2.0 ** -40, 1e-10, -1e-10]))
+    x = k + 0.5 + d
+    p = x * ud / poss
+    u = int(r.randint(0, 3))
+    if u == 1:
+        p = float(np.nextafter(p, 2.0))
+    elif u == 2:
+        p = float(np.nextafter(p, -1.0))
+    return p, 'near_half'
+
+
+def tp_case(ctx, bct, lines, pend):
+    r = ctx.nprng
+    W, fam, dtype = gen_matrix(ctx, signed=False)
+    n = len(W)
+    poss = n * n - n
+    Wd = [[F(0) if i == j else W[i][j] for j in range(n)] for i in range(n)]
+    symbranch, edge = allclose_frac(Wd)
+    if edge:
+        ctx.count('tp:knife_edge_skipped')
+        return
+    ud = 2 if symbranch else 1
+    p, pkind = gen_p(ctx, n, ud)
+    pty = int(r.randint(0, 3))
+    parg = np.float64(p) if pty == 1 else int(p) if (pty == 2 and p in (0.0, 1.0) and not (p == 0 and math.copysign(1, p) < 0)) else p
+    A = npm(W, dtype)
+    A0 = A.copy()
+    case = {'fn': 'threshold_proportional', 'W': strs(W), 'p': repr(p), 'dtype': dtype, 'family': fam}
+    ctx.case(case, nontrivial=any(Wd[i][j] != 0 for i in range(n) for j in range(n)))
+    ctx.count('tp:n=%s' % (n if n < 8 else '8+')); ctx.count('tp:branch_sym' if symbranch else 'tp:branch_asym')
+    ctx.count('tp:family:' + fam); ctx.count('tp:p:' + pkind)
+    try:
+        R = call(bct.threshold_proportional, A, parg)
+        err = None
+    except bct.utils.BCTParamError:
+        R, err = None, 'param'
+    except Exception as e:
+        R, err = None, repr(e)
+    pq = F(p)
+    peff = pq
+    if pq > 1 or pq < 0:
+        ctx.check(err == 'param', 'threshold_proportional:reject', 'p outside [0,1] must raise BCTParamError', case)
+        ctx.check(np.array_equal(A, A0), 'threshold_proportional:copy', 'rejected call modified the argument', case)
+        ctx.count('tp:rejected')
+    elif err:
+        ctx.fail('threshold_proportional:raises', 'raised ' + err, case)
+    else:
+        xf = (n * n - n) * p / ud                 # the code's expression, same binary64 operations
+        en = tround(F(xf))
+        en_exact = tround(F(poss) * pq / ud)
+        if en != en_exact:
+            ctx.count('tp:float_en_differs_from_exact')
+        if poss:
+            peff = F(xf) * ud / poss
+        links = [(i, j) for i in range(n) for j in range(n) if Wd[i][j] != 0 and (not symbranch or i < j)]
+        want = ud * min(en, len(links))
+        Rq = frmat(R)
+        nnz = sum(1 for i in range(n) for j in range(n) if Rq[i][j] != 0)
+        ctx.check(isinstance(R, np.ndarray) and R.shape == (n, n), 'threshold_proportional:shape', 'result is not an n x n array', case)
+        ctx.check(nnz == want, 'threshold_proportional:count', 'kept %d connections, expected %d' % (nnz, want), case)
+        ctx.check(all(Rq[i][i] == 0 for i in range(n)), 'threshold_proportional:diag', 'diagonal not cleared', case)
+        if symbranch:
+            okv = all(Rq[i][j] == Rq[j][i] and Rq[i][j] in (0, Wd[i][j]) for i in range(n) for j in range(i + 1, n))
+        else:
+            okv = all(Rq[i][j] in (0, Wd[i][j]) for i in range(n) for j in range(n))
+        ctx.check(okv, 'threshold_proportional:values', 'an output entry is neither 0 nor the input entry', case)
+        kept = [Wd[i][j] for (i, j) in links if Rq[i][j] != 0]
+        dropped = [Wd[i][j] for (i, j) in links if Rq[i][j] == 0]
+        ctx.check(not kept or not dropped or min(kept) >= max(dropped), 'threshold_proportional:strongest', 'a dropped connection is stronger than a kept one', case)
+        ctx.check(len(kept) * ud == nnz, 'threshold_proportional:support', 'a nonzero output cell is not a link of the input', case)
+        if symbranch:
+            ctx.check(all(Rq[i][j] == Rq[j][i] for i in range(n) for j in range(n)), 'threshold_proportional:sym', 'symmetric input gave asymmetric output', case)
+        ctx.check(np.array_equal(A, A0) and A.dtype == A0.dtype, 'threshold_proportional:copy', 'copy=True modified the argument', case)
+        ctx.check(R is not A and not np.shares_memory(R, A), 'threshold_proportional:copy', 'copy=True returned (a view of) the argument', case)
+        if dtype == 'float':
+            ctx.check(R.dtype == A0.dtype, 'threshold_proportional:dtype', 'result dtype %s for float64 input' % R.dtype, case)
+        Ac = A0.copy(); R2 = bct.threshold_proportional(Ac, parg, copy=False)
+        ctx.check(R2 is Ac and np.array_equal(Ac, R), 'threshold_proportional:inplace', 'copy=False does not leave the result in the argument', case)
+        if n and r.rand() < 0.5:
+            V, B, M = as_view(r, A0); B0 = B.copy()
+            R3 = bct.threshold_proportional(V, parg, copy=False)
+            ctx.check(R3 is V and np.array_equal(V, R) and np.array_equal(B[~M], B0[~M]), 'threshold_proportional:inplace',
+                      'copy=False on a non-contiguous view: result not left in the view / cells outside the view touched', case)
+            ctx.count('tp:view')
+    ml = enc_mat(W, enc_qb)
+    lines.append('tp %s %s' % (ml, enc_qb(peff))); pend.append(('tp', case, R, err, None))
+    for c in (1, 0):
+        lines.append('st_tp %s %s %d' % (ml, enc_qb(peff), c)); pend.append(('st_tp', case, R, err, (c, A0)))
+
+
+# ---------------------------------------------------------------- one utility call against an exact expectation
+def check_util(ctx, name, f, args, A0, W, E, tol, case, dtype, speckey, view_rng=None):
+    """E: expected exact values (list of lists of Fractions), or 'nan' (every cell NaN), or ('raise', ExcType).
+    Returns the copy=True result (or None)."""
+    n = len(W)
+    A = A0.copy()
+    with warnings.catch_warnings(), np.errstate(all='ignore'):
+        warnings.simplefilter('ignore')
+        try:
+            R = call(f, A, *args)
+            err = None
+        except Exception as e:
+            R, err = None, e
+
+        def values_ok(X):
+            if E == 'nan':
+                return isinstance(X, np.ndarray) and X.shape == (n, n) and bool(np.all(np.isnan(X)))
+            if not (isinstance(X, np.ndarray) and X.shape == (n, n)):
+                return False
+            return all((fr(X[i, j]) == E[i][j]) if tol == 0 else close_to(X[i, j], E[i][j], tol) for i in range(n) for j in range(n))
+
+        if isinstance(E, tuple):
+            ctx.check(err is not None and isinstance(err, E[1]), speckey, 'expected %s, got %s' % (E[1].__name__, repr(err) if err else 'a result'), case)
+            ctx.check(np.array_equal(A, A0), name + ':copy', 'argument modified by a call that raised', case)
+            return None
+        if err is not None:
+            ctx.fail(speckey, 'raised %r' % (err,), case)
+            return None
+        ok = ctx.check(values_ok(R), speckey, 'result differs from the specified values', case)
+        ctx.check(np.array_equal(A, A0) and A.dtype == A0.dtype, name + ':copy', 'copy=True modified the argument', case)
+        ctx.check(R is not A and not np.shares_memory(R, A), name + ':copy', 'copy=True returned (a view of) the argument', case)
+        if dtype == 'float':
+            ctx.check(R.dtype == A0.dtype, name + ':dtype', 'result dtype %s for float64 input' % R.dtype, case)
+        if ok:
+            Ac = A0.copy()
+            try:
+                R2 = f(Ac, *args, copy=False)
+                ctx.check(R2 is Ac and values_ok(Ac), name + ':inplace', 'copy=False does not leave the result in the argument', case)
+            except Exception as e:
+                if dtype != 'float' and name in ('invert', 'normalize') and isinstance(e, (TypeError, RuntimeError)) and np.array_equal(Ac, A0):
+                    # an integer / bool array cannot in general hold 1/w or w/max: refusing loudly (TypeError of the ufunc, or
+                    # BCTParamError) and leaving the argument alone is accepted; returning a wrong array is not
+                    ctx.count(name + ':inplace_refused_on_int_dtype')
+                else:
+                    ctx.fail(name + ':inplace', 'copy=False raised %r' % (e,), case)
+            if view_rng is not None and n:
+                V, B, M = as_view(view_rng, A0); B0 = B.copy()
+                R3 = f(V, *args, copy=False)
+                ctx.check(R3 is V and values_ok(V) and np.array_equal(B[~M], B0[~M]), name + ':inplace',
+                          'copy=False on a non-contiguous view: result not left in the view / cells outside the view touched', case)
+                ctx.count(name + ':view')
+        return R
+
+
+def expected(name, W, thr=None):
+    n = len(W)
+    if name == 'threshold_absolute':
+        return [[F(0) if (i == j or W[i][j] < thr) else W[i][j] for j in range(n)] for i in range(n)]
+    if name == 'binarize':
+        return [[F(int(W[i][j] != 0)) for j in range(n)] for i in range(n)]
+    if name == 'invert':
+        return [[1 / W[i][j] if W[i][j] != 0 else F(0) for j in range(n)] for i in range(n)]
+    if name == 'normalize':
+        if n == 0:
+            return ('raise', ValueError)
+        m = max(abs(x) for row in W for x in row)
+        if m == 0:
+            return 'nan'
+        return [[W[i][j] / m for j in range(n)] for i in range(n)]
+    raise KeyError(name)
+
+
+def util_cases(ctx, bct, lines, pend):
+    r = ctx.nprng
+    W, fam, dtype = gen_matrix(ctx, signed=True)
+    n = len(W)
+    A0 = npm(W, dtype)
+    nontriv = any(x != 0 for row in W for x in row)
+    ml = enc_mat(W, enc_qb)
+    ctx.count('util:family:' + fam); ctx.count('util:n=%s' % (n if n < 8 else '8+'))
+    # ---------------- threshold_absolute
+    ch = int(r.randint(0, 4))
+    flat = [x for row in W for x in row if x != 0]
+    if ch == 0 and flat:
+        thr = flat[int(r.randint(0, len(flat)))]           # exactly a weight: "not below the threshold" is kept
+    elif ch == 1:
+        thr = F(float(r.choice([0.1, 0.3, 1 / 3, 0.7, 2.2, -0.1, 1e-3])))
+    else:
+        thr = F(int(r.randint(-4, 10)), 2)
+    case = {'fn': 'threshold_absolute', 'W': strs(W), 'thr': str(thr), 'dtype': dtype, 'family': fam}
+    ctx.case(case, nontrivial=nontriv)
+    R = check_util(ctx, 'threshold_absolute', bct.threshold_absolute, (float(thr),), A0, W, expected('threshold_absolute', W, thr), 0, case,
+                   dtype, 'threshold_absolute:exact', view_rng=r if r.rand() < 0.5 else None)
+    lines.append('ta %s %s' % (ml, enc_qb(thr))); pend.append(('ta', case, R, None, None))
+    for c in (1, 0):
+        lines.append('st_ta %s %s %d' % (ml, enc_qb(thr), c)); pend.append(('st_ta', case, R, None, (c, A0)))
+    # ---------------- binarize / normalize / invert, directly and through weight_conversion
+    for name, wname, f in (('binarize', 'binarize', bct.binarize), ('normalize', 'normalize', bct.normalize), ('invert', 'lengths', bct.invert)):
+        case = {'fn': name, 'W': strs(W), 'dtype': dtype, 'family': fam}
+        ctx.case(case, nontrivial=nontriv)
+        E = expected(name, W)
+        tol = 0 if name == 'binarize' else F(8, 10 ** 15)
+        key = name + ':spec'
+        if dtype != 'float' and name in ('normalize', 'invert') and not isinstance(E, tuple):
+            key = name + ':int_dtype'          # the clause on integer / bool arrays (known findings are filed under this narrow key)
+        R = check_util(ctx, name, f, (), A0, W, E, tol, case, dtype, key, view_rng=r if (dtype == 'float' and r.rand() < 0.4) else None)
+        if name == 'invert' and R is not None and dtype == 'float':
+            with np.errstate(all='ignore'):
+                RR = bct.invert(R)
+            ctx.check(all(close_to(RR[i, j], W[i][j], F(16, 10 ** 15)) if W[i][j] != 0 else RR[i, j] == 0 for i in range(n) for j in range(n)),
+                      'invert:involution', 'invert(invert(W)) is not W', case)
+        if name == 'normalize' and R is not None and E != 'nan':
+            ctx.check(float(np.abs(R).max()) == 1.0, 'normalize:max_is_one', 'largest magnitude of the result is not exactly 1', case)
+        # weight_conversion must be the same call
+        wcase = {'fn': 'weight_conversion', 'wcm': wname, 'W': strs(W), 'dtype': dtype, 'family': fam}
+        ctx.case(wcase, nontrivial=nontriv)
+        for cp in (True, False):
+            Aw = A0.copy(); Ad = A0.copy()
+            with warnings.catch_warnings(), np.errstate(all='ignore'):
+                warnings.simplefilter('ignore')
+                try:
+                    Rw, ew = bct.weight_conversion(Aw, wname, copy=cp), None
+                except Exception as e:
+                    Rw, ew = None, e
+                try:
+                    Rd, ed = f(Ad, copy=cp), None
+                except Exception as e:
+                    Rd, ed = None, e
+            same = (type(ew) is type(ed)) if (ew or ed) else (np.array_equal(Rw, Rd, equal_nan=True) and Rw.dtype == Rd.dtype and (Rw is Aw) == (Rd is Ad))
+            ctx.check(same and np.array_equal(Aw, Ad, equal_nan=True), 'weight_conversion:dispatch',
+                      'weight_conversion(%s, copy=%s) differs from the direct call (result, identity or argument afterwards)' % (wname, cp), wcase)
+            if cp is False and ew is None:
+                ctx.check(Rw is Aw, 'weight_conversion:inplace', 'copy=False contract', wcase)
+        if dtype == 'float' or name == 'binarize':
+            lines.append('wc_str %s %s' % (ml, enc_codes(wname))); pend.append(('wc_str', wcase, R, E, None))
+            for c in (1, 0):
+                lines.append('st_wc %s %s %d' % (ml, enc_codes(wname), c)); pend.append(('st_wc', wcase, R, E, (c, A0, wname)))
+    # ---------------- unknown command strings
+    if r.rand() < 0.5:
+        bad = str(r.choice(['foo', 'Binarize', 'binarize ', '', 'length', 'normalise', 'lengths2', 'BINARIZE', 'invert']))
+        wcase = {'fn': 'weight_conversion', 'wcm': bad, 'W': strs(W), 'dtype': dtype, 'family': fam}
+        ctx.case(wcase, nontrivial=nontriv)
+        for cp in (True, False):
+            Aw = A0.copy()
+            try:
+                bct.weight_conversion(Aw, bad, copy=cp); e = None
+            except Exception as ex:
+                e = ex
+            ctx.check(isinstance(e, NotImplementedError) and np.array_equal(Aw, A0), 'weight_conversion:unknown',
+                      'unknown command %r must raise NotImplementedError and leave the argument alone (got %r)' % (bad, e), wcase)
+        lines.append('wc_str %s %s' % (ml, enc_codes(bad))); pend.append(('wc_str', wcase, None, ('raise', NotImplementedError), None))
+        lines.append('st_wc %s %s 0' % (ml, enc_codes(bad))); pend.append(('st_wc', wcase, None, ('raise', NotImplementedError), (0, A0, bad)))
+        ctx.count('wc:unknown')
+
+
+def round_case(ctx, lines, pend):
+    from bct.utils.miscellaneous_utilities import teachers_round
+    r = ctx.nprng
+    ch = int(r.randint(0, 4))
+    if ch == 0:
+        x = int(r.randint(-40, 41)) / float(r.choice([1, 2, 4, 8]))
+    elif ch == 1:
+        x = float(r.choice([0.1, -0.1, 2.675, -2.675, 1e-20, -1e-20, 0.49999999999999994, -0.49999999999999994, 1e15 + 0.5, -(1e15 + 0.5),
+                            4503599627370497.5, 0.0, -0.0, 3.5000000000000004, -3.5000000000000004]))
+    elif ch == 2:
+        x = float(r.uniform(-50, 50))
+    else:
+        k = int(r.randint(-30, 31))
+        x = k + 0.5 + float(r.choice([0.0, 2.0 ** -40, -2.0 ** -40, 1e-10, -1e-10]))
+        if r.rand() < 0.3:
+            x = float(np.nextafter(x, float(r.choice([-1e9, 1e9]))))
+    xq = F(x)
+    if xq < 0 and F(x % 1) != xq - math.floor(xq):
+        # binary64 artefact outside the model: for -1 < x < 0 with low-order bits the float `x % 1` = fmod(x, 1) + 1 is rounded
+        # (e.g. -0.49999999999999994 % 1 == 0.5, so the code returns -1); recorded, not judged (tp only rounds x >= 0)
+        ctx.count('round:neg_float_mod_inexact_skipped')
+        return
+    got = teachers_round(np.float64(x) if r.rand() < 0.3 else x)
+    case = {'fn': 'teachers_round', 'x': repr(x)}
+    ctx.case(case, nontrivial=xq.denominator != 1)
+    ctx.count('round:' + ('pos' if xq > 0 else 'neg' if xq < 0 else 'zero'))
+    ctx.check(isinstance(got, int) and got == tround(xq), 'teachers_round:half_up' if xq > 0 else 'teachers_round:half_away',
+              'teachers_round(%r) = %r, expected %d (round half away from zero)' % (x, got, tround(xq)), case)
+    lines.append('round ' + enc_qb(xq)); pend.append(('round', case, got, None, None))
+
+
+def observe_rebinders(ctx, bct):
+    """logtransform / autofix are not named by C17; recorded, not judged (see ASSUMES)"""
+    A = np.array([[0.5, 0.25], [0.25, 1.0]])
+    B = A.copy()
+    try:
+        R = bct.logtransform(B, copy=False)
+        ctx.count('rebind:logtransform_' + ('inplace' if R is B else 'returns_new_object_argument_%s' % ('unchanged' if np.array_equal(A, B) else 'changed')))
+    except Exception as e:
+        ctx.count('rebind:logtransform_raises_' + type(e).__name__)
+    A = np.array([[0.0, 1.0000000001], [1.0, 0.0]])
+    B = A.copy()
+    try:
+        R = bct.autofix(B, copy=False)
+        ctx.count('rebind:autofix_' + ('inplace' if R is B else 'returns_new_object'))
+    except Exception as e:
+        ctx.count('rebind:autofix_raises_' + type(e).__name__)
+
+
+# ---------------------------------------------------------------- model tie
+def dec_m(m):
+    return [[dec_q(x) for x in row] for row in m]
+
+
+def same_vals(Mq, X, tol):
+    X = np.asarray(X)
+    n = len(Mq)
+    if X.shape != (n, n):
+        return False
+    if tol == 0:
+        return all(fr(X[i, j]) == Mq[i][j] for i in range(n) for j in range(n))
+    return all(close_to(X[i, j], Mq[i][j], tol) for i in range(n) for j in range(n))
+
+
+def tp_equiv(Mq, R):
+    """argsort tie order is unspecified: same multiset of values, identical support strictly above the cut"""
+    n = len(Mq)
+    Rq = frmat(R)
+    if Mq == Rq:
+        return 'identical'
+    fm = sorted(x for row in Mq for x in row); frr = sorted(x for row in Rq for x in row)
+    if fm != frr:
+        return None
+    nzm = [x for x in fm if x != 0]
+    cut = min(nzm) if nzm else F(0)
+    if all((Mq[i][j] if Mq[i][j] > cut else 0) == (Rq[i][j] if Rq[i][j] > cut else 0) for i in range(n) for j in range(n)):
+        return 'ties'
+    return None
 
 
 def run(ctx):
     import bct
     N = ctx.scale(400, 4000)
     lines, pend = [], []
+    observe_rebinders(ctx, bct)
     for t in range(N):
-        # ---------------- threshold_proportional
-        W, sym = gen_matrix(ctx, signed=False)
-        n = len(W)
-        poss = n * n - n
-        r = ctx.nprng
-        ch = int(r.randint(0, 6))
-        if ch == 0:
-            p = F(0)
-        elif ch == 1:
-            p = F(1)
-        elif ch == 2 and poss:
-            p = F(int(r.randint(0, poss + 1)), 1) / 1 * F(1, 1) * F(1, poss) if poss in (2, 4, 8, 16, 32) else F(int(r.randint(0, 17)), 16)
-        elif ch == 3:
-            p = F(int(r.randint(0, 33)), 32)
-        elif ch == 4:
-            p = F(int(r.randint(0, 9)), 8)
-        else:
-            p = F(int(r.randint(-2, 20)), 16)   # includes out-of-range values (rejection clause)
-        A = npm(W)
-        A0 = A.copy()
-        case = {'fn': 'threshold_proportional', 'W': [[str(x) for x in row] for row in W], 'p': str(p)}
-        ctx.case(case, nontrivial=bool(np.any(A - np.diag(np.diag(A)))))
-        ctx.count('tp:n=%d' % n); ctx.count('tp:sym' if sym else 'tp:asym')
-        try:
-            R = call(bct.threshold_proportional, A, float(p))
-            err = None
-        except bct.utils.BCTParamError as e:
-            R, err = None, 'param'
-        except Exception as e:
-            R, err = None, repr(e)
-        # direct oracle on the implementation
-        if p > 1 or p < 0:
-            ctx.check(err == 'param', 'threshold_proportional:reject', 'p outside [0,1] must raise BCTParamError', case)
-            ctx.count('tp:rejected')
-        elif err:
-            ctx.fail('threshold_proportional:raises', 'raised ' + err, case)
-        else:
-            Wd = A0.copy(); np.fill_diagonal(Wd, 0)
-            issym = np.array_equal(Wd, Wd.T)
-            nnz = int((Wd != 0).sum())
-            if issym:
-                en = tround(F(poss) * p / 2); want = 2 * min(en, nnz // 2)
-            else:
-                en = tround(F(poss) * p); want = min(en, nnz)
-            ctx.check(int((R != 0).sum()) == want, 'threshold_proportional:count', 'kept %d connections, expected %d' % (int((R != 0).sum()), want), case)
-            ctx.check(np.all(np.diag(R) == 0), 'threshold_proportional:diag', 'diagonal not cleared', case)
-            ctx.check(np.all((R == 0) | (R == Wd)), 'threshold_proportional:values', 'an output entry is neither 0 nor the input entry', case)
-            kept = R[R != 0]; dropped = Wd[(Wd != 0) & (R == 0)]
-            ctx.check(len(kept) == 0 or len(dropped) == 0 or kept.min() >= dropped.max(), 'threshold_proportional:strongest', 'a dropped connection is stronger than a kept one', case)
-            if issym:
-                ctx.check(np.array_equal(R, R.T), 'threshold_proportional:sym', 'symmetric input gave asymmetric output', case)
-            ctx.check(np.array_equal(A, A0), 'threshold_proportional:copy', 'copy=True modified the argument', case)
-            Ac = A0.copy(); R2 = bct.threshold_proportional(Ac, float(p), copy=False)
-            ctx.check(R2 is Ac and np.array_equal(np.sort(R2, axis=None), np.sort(R, axis=None)) and np.array_equal(R2 != 0, R != 0), 'threshold_proportional:inplace', 'copy=False does not leave the result in the argument', case)
-        lines.append('tp ' + enc_mat(W, enc_q) + ' ' + enc_q(p)); pend.append(('tp', case, R, err, W))
+        tp_case(ctx, bct, lines, pend)
+        util_cases(ctx, bct, lines, pend)
+        round_case(ctx, lines, pend)
 
-        # ---------------- threshold_absolute / binarize / normalize / invert / weight_conversion
-        W, sym = gen_matrix(ctx, signed=True)
-        A = npm(W); A0 = A.copy(); n = len(W)
-        thr = F(int(r.randint(-4, 10)), 2)
-        case = {'fn': 'threshold_absolute', 'W': [[str(x) for x in row] for row in W], 'thr': str(thr)}
-        ctx.case(case, nontrivial=bool(np.any(A)))
-        R = bct.threshold_absolute(A, float(thr))
-        E = A0.copy(); np.fill_diagonal(E, 0); E[E < float(thr)] = 0
-        ctx.check(np.array_equal(R, E) and np.array_equal(A, A0), 'threshold_absolute:exact', 'not exactly the off-diagonal entries >= thr / argument modified', case)
-        Ac = A0.copy(); R2 = bct.threshold_absolute(Ac, float(thr), copy=False)
-        ctx.check(R2 is Ac and np.array_equal(R2, E), 'threshold_absolute:inplace', 'copy=False contract', case)
-        lines.append('ta ' + enc_mat(W, enc_q) + ' ' + enc_q(thr)); pend.append(('ta', case, R, None, W))
-        for m, name, f in ((0, 'binarize', bct.binarize), (1, 'normalize', bct.normalize), (2, 'lengths', bct.invert)):
-            if m == 1 and not np.any(A0):
-                continue
-            case = {'fn': 'weight_conversion', 'wcm': name, 'W': [[str(x) for x in row] for row in W]}
-            ctx.case(case, nontrivial=bool(np.any(A0)))
-            A = A0.copy()
-            R = f(A)
-            Rw = bct.weight_conversion(A, name)
-            ctx.check(np.array_equal(R, Rw), 'weight_conversion:dispatch', 'weight_conversion(%s) differs from the direct call' % name, case)
-            ctx.check(np.array_equal(A, A0), name + ':copy', 'copy=True modified the argument', case)
-            Ac = A0.copy(); R2 = f(Ac, copy=False)
-            ctx.check(R2 is Ac and np.array_equal(R2, R), name + ':inplace', 'copy=False contract', case)
-            Ac = A0.copy(); R3 = bct.weight_conversion(Ac, name, copy=False)
-            ctx.check(R3 is Ac and np.array_equal(R3, R), 'weight_conversion:inplace', 'copy=False contract', case)
-            if m == 0:
-                ctx.check(np.array_equal(R, (A0 != 0).astype(float)), 'binarize:spec', 'not the 0/1 indicator of nonzero', case)
-            if m == 1:
-                ctx.check(abs(np.abs(R).max() - 1) < 1e-12 and np.allclose(R * np.abs(A0).max(), A0), 'normalize:spec', 'largest magnitude is not 1 / not a rescaling', case)
-            if m == 2:
-                with np.errstate(all='ignore'):
-                    E = np.where(A0 != 0, 1 / np.where(A0 != 0, A0, 1), 0)
-                ctx.check(np.allclose(R, E) and np.allclose(bct.invert(R), A0), 'invert:spec', 'not 1/w on the support or not an involution', case)
-            lines.append('wc ' + enc_mat(W, enc_q) + ' %d' % m); pend.append(('wc', case, R, None, W))
-        # teachers_round
-        x = F(int(r.randint(-40, 41)), int(r.choice([1, 2, 4, 8])))
-        from bct.utils.miscellaneous_utilities import teachers_round
-        got = teachers_round(float(x))
-        case = {'fn': 'teachers_round', 'x': str(x)}
-        ctx.case(case, nontrivial=x.denominator != 1)
-        if x > 0:
-            import math
-            ctx.check(got == math.floor(x + F(1, 2)), 'teachers_round:half_up', 'positive x must round half up', case)
-        lines.append('round ' + enc_q(x)); pend.append(('round', case, got, None, None))
-
-    # ---------------- correspondence: extracted Coq model on the same inputs
+    # ---------------- correspondence: extracted Coq model (pure functions AND the store programs) on the same inputs
     res = run_model(ID, lines)
     ctx.model_cases = len(lines)
-    for (kind, case, R, err, W), m in zip(pend, res):
+    for (kind, case, R, err, extra), m in zip(pend, res):
         if is_err(m):
             ctx.mismatch('model-error', m['error'], case); continue
         if kind == 'round':
             if dec_z(m) != R:
                 ctx.mismatch('teachers_round', 'model %s impl %s' % (dec_z(m), R), case, dec_z(m), R)
             continue
-        if kind == 'tp':
+        if kind in ('tp', 'st_tp'):
             if m is None or R is None:
                 if not (m is None and err == 'param'):
                     ctx.mismatch('threshold_proportional:reject', 'model %s / impl %s' % ('rejects' if m is None else 'accepts', err), case)
                 continue
-            M = np.array([[float(dec_q(x)) for x in row] for row in m]).reshape(R.shape)
-            if np.array_equal(M, R):
-                ctx.count('tp:identical')
+            if kind == 'tp':
+                v = tp_equiv(dec_m(m), R)
+                if v is None:
+                    ctx.mismatch('threshold_proportional', 'kept sets differ beyond tie order', case, m, R)
+                else:
+                    ctx.count('tp:' + ('identical' if v == 'identical' else 'equal_up_to_ties'))
                 continue
-            # argsort tie order is unspecified: same multiset of kept values, and identical support strictly above the cut
-            same_vals = np.array_equal(np.sort(M, axis=None), np.sort(R, axis=None))
-            cut = min(M[M != 0].min(), R[R != 0].min()) if np.any(M) and np.any(R) else 0
-            above = np.array_equal(np.where(M > cut, M, 0), np.where(R > cut, R, 0))
-            if same_vals and above:
-                ctx.count('tp:equal_up_to_ties')
-            else:
-                ctx.mismatch('threshold_proportional', 'kept sets differ beyond tie order', case, M, R)
+            c, A0 = extra
+            arg_after, ret, same = dec_m(m[0]), dec_m(m[1]), m[2]
+            # implementation observation: copy=True -> (A0, R, False); copy=False -> (R, R, True)   (checked directly above)
+            want_arg = frmat(A0) if c else None
+            okk = (same == (not c)) and tp_equiv(ret, R) is not None and (arg_after == want_arg if c else arg_after == ret)
+            if not okk:
+                ctx.mismatch('threshold_proportional:store', 'store model (copy=%d) disagrees with the observed argument/result/identity' % c, case, m, R)
             continue
-        M = np.array([[float(dec_q(x)) for x in row] for row in m]).reshape(R.shape)
-        if not np.allclose(M, R, rtol=1e-12, atol=0):
-            ctx.mismatch(case['fn'] + ':' + case.get('wcm', ''), 'model and implementation differ', case, M, R)
+        if kind in ('ta', 'st_ta'):
+            if R is None:
+                continue
+            if kind == 'ta':
+                if not same_vals(dec_m(m), R, 0):
+                    ctx.mismatch('threshold_absolute', 'model and implementation differ', case, m, R)
+                continue
+            c, A0 = extra
+            arg_after, ret, same = dec_m(m[0]), dec_m(m[1]), m[2]
+            okk = (same == (not c)) and same_vals(ret, R, 0) and (arg_after == frmat(A0) if c else arg_after == ret)
+            if not okk:
+                ctx.mismatch('threshold_absolute:store', 'store model (copy=%d) disagrees with the observed argument/result/identity' % c, case, m, R)
+            continue
+        # weight_conversion (pure dispatch and store program); err holds the expectation E
+        E = err
+        tol = 0 if case['wcm'] == 'binarize' else F(1, 10 ** 12)
+        if isinstance(E, tuple):
+            want = 'raise' if E[1] is NotImplementedError else None
+            if want is None:
+                continue                                   # n = 0 normalize: ValueError of np.max, not a model matter
+            if m != 'raise':
+                ctx.mismatch('weight_conversion:unknown', 'model accepts the command %r' % case['wcm'], case, m, None)
+            continue
+        if m == 'raise':
+            ctx.mismatch('weight_conversion:dispatch', 'model rejects the command %r' % case['wcm'], case, m, None); continue
+        if E == 'nan' or m == 'nan':
+            if not (E == 'nan' and m == 'nan'):
+                ctx.mismatch('normalize:allzero', 'model and oracle disagree on max|W| = 0', case, m, None)
+            continue
+        if R is None:
+            continue
+        if kind == 'wc_str':
+            if not same_vals(dec_m(m), R, tol):
+                ctx.mismatch('weight_conversion:' + case['wcm'], 'model and implementation differ', case, m, R)
+            continue
+        c, A0, wname = extra
+        arg_after, ret, same = dec_m(m[0]), dec_m(m[1]), m[2]
+        okk = (same == (not c)) and same_vals(ret, R, tol) and (arg_after == frmat(A0) if c else arg_after == ret)
+        if not okk:
+            ctx.mismatch('weight_conversion:store', 'store model (%s, copy=%d) disagrees with the observed argument/result/identity' % (wname, c), case, m, R)
